@@ -265,6 +265,7 @@ struct Driver {
     auto arm = [&]() {
       ev0 = evNow();
       G().throwingEvents = 0;
+      G().lastInjected.clear();
       G().countdown = inject;
     };
     R &r = ref[a];
@@ -920,6 +921,10 @@ struct Driver {
     os << " | ev=" << (ev1.valC - ev0.valC) << "," << (ev1.defC - ev0.defC) << "," << (ev1.copyC - ev0.copyC) << ","
        << (ev1.moveC - ev0.moveC) << "," << (ev1.copyA - ev0.copyA) << "," << (ev1.moveA - ev0.moveA) << ","
        << (ev1.dtor - ev0.dtor) << " te=" << throwingEvents;
+    if (!G().lastInjected.empty()) {
+      os << " inj=" << G().lastInjected;
+      G().lastInjected.clear();
+    }
     std::printf("%s\n", os.str().c_str());
     for (size_t i = 0; i < oracle.size(); ++i) std::printf("ORACLE %s %d %s\n", hid.c_str(), step, oracle[i].c_str());
   }
@@ -1053,11 +1058,14 @@ static const Entry kTable[] = {
     {"FCV6.u8.POD", &runConfig<CfgFCV<POD4, 6> >},
     {"SV3.s32.POD.led", &runConfig<CfgDyn<POD4, LedgerAlloc<POD4, false>, int32_t, 3> >},
     {"SV2.u32.OA16.led", &runConfig<CfgDyn<OA16, LedgerAlloc<OA16, false>, uint32_t, 2> >},
+    {"SV3.u8.NTM.led", &runConfig<CfgDyn<El<2>, LedgerAlloc<El<2>, false>, uint8_t, 3> >},
 #elif GROUP == 7
     {"FCV8.u8.TC4", &runConfig<CfgFCV<TC4, 8> >},
     {"FCV3.s32.NTR", &runConfig<CfgFCVS<El<0>, 3, int32_t> >},
     {"SV4.u8.NTR.led", &runConfig<CfgDyn<El<0>, LedgerAlloc<El<0>, false>, uint8_t, 4> >},
     {"FCV3.u8.OA16", &runConfig<CfgFCV<OA16, 3> >},
+    {"vec.u32.NTM.led", &runConfig<CfgDyn<El<2>, LedgerAlloc<El<2>, false>, uint32_t, 0> >},
+    {"FCV5.u8.NTM", &runConfig<CfgFCV<El<2>, 5> >},
 #endif
 };
 
